@@ -77,15 +77,15 @@ def run(tier, seed):
     exe = dc.driver()
     R = "reply"
     gens = [
-        ("C33_answers", {"Mode": R, "QTypes": {1, 28, 12}, "RRIdx": range(1, 31), "MaxAn": 1 if q else 2}),
+        ("C33_answers", {"Mode": R, "QTypes": {1, 28, 12}, "RRIdx": range(1, 34), "MaxAn": 1 if q else 2}),
         ("C33_pairs", {"Mode": R, "QTypes": {1, 12}, "RRIdx": {1, 2, 6, 7, 8, 9, 12, 13, 21, 27, 29} if q else (set(range(1, 14)) | {26, 27, 28, 29}), "MaxAn": 2 if q else 3}),
-        ("C33_header", {"Mode": R, "QTypes": {1, 12}, "FlagIdx": range(1, 9), "QIdx": range(1, 9), "RRIdx": {1, 8}, "NsIdx": {1, 2}, "IdSet": {0, 1},
+        ("C33_header", {"Mode": R, "QTypes": {1, 28, 12}, "FlagIdx": range(1, 9), "QIdx": range(1, 9), "RRIdx": {1, 3, 8, 31, 32, 33}, "NsIdx": {1, 2}, "IdSet": {0, 1},
                         "MaxAn": 1}),
         ("C33_shape", {"Mode": R, "QTypes": {1, 28, 12}, "RRIdx": {1, 4, 6, 8, 13}, "NsIdx": {1, 2, 3}, "ArIdx": {1, 2}, "CntIdx": range(1, 8),
                        "CutSet": {0, 1, 3, 11}, "MaxAn": 1}),
     ]
     if not q:
-        gens.append(("C33_rand", {"Mode": R, "QTypes": {1, 28, 12}, "FlagIdx": range(1, 9), "QIdx": range(1, 9), "RRIdx": range(1, 31),
+        gens.append(("C33_rand", {"Mode": R, "QTypes": {1, 28, 12}, "FlagIdx": range(1, 9), "QIdx": range(1, 9), "RRIdx": range(1, 34),
                                   "NsIdx": {1, 2, 3}, "ArIdx": {1, 2}, "CntIdx": range(1, 8), "CutSet": {0, 1, 2, 3, 5, 11, 17, 30},
                                   "IdSet": {0, 1}, "MaxAn": 4, "Random": True, "RandomN": 8000}))
     msgs, seen = [], set()
